@@ -130,7 +130,8 @@ def render_items(cz, items, rng):
     prev_word = False
     for it, piece in zip(items, out):
         word = it["k"] in ("KW", "LABEL", "NUM", "MODEL", "PHOTOS", "SEMI", "COMMA", "COMMENT")
-        if word and prev_word:
+        if word and prev_word and not (it["k"] == "COMMENT" and rng.random() < 0.4):
+            # (a comment may also start directly behind the last token: `0.04# c`)
             text += " "
         text += piece
         prev_word = word and it["k"] not in ()
@@ -246,7 +247,7 @@ def edit_real(text, sites, rng, intensity):
         if rng.random() < intensity:
             body = body + rng.choice(WS)
         if rng.random() < intensity and not body.lstrip().startswith("End"):
-            body = body + " " + rng.choice(COMMENTS)
+            body = body + rng.choice([" ", " ", "", "\t"]) + rng.choice(COMMENTS)     # possibly glued to the last token
         if rng.random() < intensity and "#" not in body:
             # double an existing blank between tokens
             parts = body.split(" ")
